@@ -88,6 +88,7 @@ def make_world(seed):
   model, info = synth.build(SCN, seed)
   rng = np.random.default_rng(seed + 5)
   data = {d: [{"x0": (rng.normal(size=(1, 2, 2, 4)) * (1 + i)).astype(np.float32)} for i in range(2)] for d in ("D1", "D2")}
+  data["D0"] = []      # a dataset without samples
   return model, info, data
 
 
@@ -285,7 +286,7 @@ def main():
   q = lambda s: '"%s"' % s
   pair = lambda k: "<<%s, %s>>" % (q(k[0]), q(k[1]))
   consts = dict(NQ="2", Recipes=tlc.tla_str_set(["RA", "RB", "RC"]), Policies=tlc.tla_str_set(POLICIES), Datasets=tlc.tla_str_set(["D1", "D2"]),
-                MaxLen=str(maxlen), MaxCals="2", Names=tlc.tla_str_set(["m1"]),
+                MaxLen=str(maxlen), MaxCals="2", Names=tlc.tla_str_set(["m1"]), EmptyData="{}",
                 LoadOutcome="(" + " @@ ".join("%s :> <<%s, %s>>" % (pair(k), q(v[0]), q(v[1])) for k, v in LOAD_OUTCOME.items()) + ")",
                 NeedsCal="(" + " @@ ".join("%s :> %s" % (q(r), tlc.tla_bool(v)) for r, v in NEEDS_CAL.items()) + ")",
                 WritesStats="(" + " @@ ".join("%s :> %s" % (pair(k), tlc.tla_bool(WRITES.get(k, False))) for k in STATS_OF) + ")",
@@ -293,7 +294,7 @@ def main():
                 Fixes=tlc.tla_str_set(fixes))
   r = tlc.run("C14_api", "Api", consts, invariants=["ArgsUntouched", "OutputIsFunction", "SavedPairOfOneResult"], constraints=["EmitH"], view="View", workers=16, timeout=3600)
   # longer histories on ONE Quantizer under the default policy (a failed call in the middle, then by-the-book calls)
-  deep = dict(consts, NQ="1", Policies=tlc.tla_str_set(["P0"]), Datasets=tlc.tla_str_set(["D1"]), MaxLen=str(maxlen + 3))
+  deep = dict(consts, NQ="1", Policies=tlc.tla_str_set(["P0"]), Datasets=tlc.tla_str_set(["D1", "D0"]), EmptyData=tlc.tla_str_set(["D0"]), MaxLen=str(maxlen + 3))
   rd = tlc.run("C14_api_deep", "Api", deep, invariants=["ArgsUntouched", "OutputIsFunction"], constraints=["EmitH"], view="View", workers=16, timeout=3600)
   trans, trans_deep = {}, {}
   for rr, tr in ((r, trans), (rd, trans_deep)):
@@ -310,7 +311,17 @@ def main():
       except Exception:  # pylint: disable=broad-except
         pass
   policy_files(write=True)       # written once, read by the worker processes
-  keys = common.sample_keep(sorted(trans), 500 if args.tier == "quick" else 12000, args.seed)
+  # strata: histories in which the process-global policy changes are kept apart so that they are never sampled away
+  has_policy = lambda h: any(a[0] == "policy" for a in json.loads(h)[:-1])
+  def resolved_before_policy(h):
+    """the recipe was resolved (a calibrate / quantize that ran) before the policy changed, and a quantize() follows"""
+    h = json.loads(h)
+    ip = [k for k, a in enumerate(h) if a[0] == "policy"]
+    return bool(ip) and any(a[0] in ("calibrate", "quantize") and a[-1] == "ok" for a in h[:ip[0]]) and any(a[0] == "quantize" for a in h[ip[0]:])
+  pol_keys = sorted(k for k in trans if has_policy(k))
+  keys = [k for k in pol_keys if resolved_before_policy(k)][:400 if args.tier == "quick" else 10**6]
+  keys += common.sample_keep([k for k in pol_keys if k not in set(keys)], 250 if args.tier == "quick" else 8000, args.seed)
+  keys += common.sample_keep(sorted(k for k in trans if not has_policy(k)), 300 if args.tier == "quick" else 8000, args.seed)
   # of the long histories, those that continue after a call that raised are the ones the short ones cannot reach
   after_fail = lambda h: any(a[-1].startswith("raise") for a in json.loads(h)[:-1])
   deep_keys = sorted(k for k in trans_deep if k not in trans and after_fail(k))
